@@ -117,7 +117,7 @@ def run(rep):
         rep.check(ok_un and len(neg_of) == 1, "WRAP", "WRAP/of-single", chain[1]["sp"],
                   "the bare member is returned only for one unbatched member and never when the key is of(k, n) (of(k,0) and of(k,2) over one member are not the member itself)", str(s1))
         then1 = show(chain[1]["then"])
-        rep.check(then1 == "<T>::expect(Iterator::next(IntoIterator::into_iter(group)), could not get expression)", "WRAP", "WRAP/unwrap-is-member", chain[1]["sp"], "the unwrapped result is the single member", then1[:80])
+        rep.check(then1 == "<T>::expect(Iterator::next(IntoIterator::into_iter(group)), \"..\")", "WRAP", "WRAP/unwrap-is-member", chain[1]["sp"], "the unwrapped result is the single member", then1[:80])
         c2 = peel(chain[2]["cond"])
         okc2 = c2.get("k") == "LetCond" and pat_str(c2["pat"]) == "Expression::Match($m, _)" and show(c2["arg"]) == "e"
         rep.check(okc2, "WRAP", "WRAP/quantified-branch", chain[2]["sp"], "next: if the key expression is Match(m, _)", show(chain[2]["cond"])[:80])
